@@ -99,6 +99,9 @@ def run(prop, tier):
     seen = set()
     for j in judged:
         r = recs[j["gline"]]
+        if j.get("class") in dev_to_k:
+            known_hits.append((dev_to_k[j["class"]]["id"], dev_to_k[j["class"]]["what"]))
+            continue
         key = (j["kind"], r["ia"], r["ib"])
         if key in seen:
             continue
